@@ -36,6 +36,9 @@ type faultWriter struct {
 	accepted int
 	failed   bool
 	calls    int
+	// quota: a destination with room for k bytes: every write that fits succeeds (also an empty one,
+	// also after a write that did not fit), every other write fails
+	quota bool
 }
 
 func (w *faultWriter) Write(p []byte) (int, error) {
@@ -44,7 +47,7 @@ func (w *faultWriter) Write(p []byte) (int, error) {
 	if w.err != nil {
 		errInjected = w.err
 	}
-	if w.failed {
+	if w.failed && !w.quota {
 		return 0, errInjected
 	}
 	if w.accepted+len(p) <= w.k {
@@ -259,6 +262,8 @@ var c18Modes = []string{
 	"Write/ErrShortWrite", "WritePDF/ErrShortWrite", "cff.Write/ErrShortWrite",
 	// bare CFF data (as embedded in PDF files), cut short / read through a source that starts failing
 	"cff.Read/truncated", "cff.Read/fault",
+	// a destination with a quota of k bytes (a write that fits succeeds, also an empty one after a failure)
+	"Write/quota", "WritePDF/quota", "cff.Write/quota",
 }
 
 // seekFaultReader is a seekable source of known size that fails (not with EOF) on any read touching offset >= k.
@@ -319,6 +324,10 @@ func init() {
 			if mode >= 11 && mode <= 13 {
 				mode, werr = []int{1, 3, 5}[mode-11], io.ErrShortWrite
 			}
+			quota := false
+			if mode >= 16 && mode <= 18 {
+				mode, quota = []int{0, 2, 4}[mode-16], true
+			}
 			isCFF := fo.font.IsCFF()
 			// reference output for the write modes
 			var ref []byte
@@ -365,7 +374,7 @@ func init() {
 			sig := mname
 			switch mode {
 			case 0, 1, 2, 3, 4, 5:
-				w := &faultWriter{k: k, short: mode%2 == 1, err: werr}
+				w := &faultWriter{k: k, short: mode%2 == 1, err: werr, quota: quota}
 				var n int64 = -1
 				var err error
 				fin, pmsg := withWatchdog(20*time.Second, func() {
